@@ -187,6 +187,9 @@ def run_job(job, scratch):
         return {'id': job['id'], 'ref': compute_ref(job['world'])}
     if job.get('chdir'):
         os.chdir(scratch)
+    for d in job.get('mkdirs', ()):
+        # C18: directories the run is pointed at (--profile-directory)
+        os.makedirs(os.path.join(scratch, d), exist_ok=True)
     from zope.testrunner.runner import Runner
     spec = job['world']
     log = worldlib.EventLog(None)
